@@ -463,8 +463,14 @@ def check_c(ck, repo):
             raise AnalysisError("anchor vanished: tree_add_node in _tree_digitize.pyx")
         params = [a.arg for a in w.args.args]
         r = [x for x in ast.walk(w) if isinstance(x, ast.Return)]
-        ok = len(r) == 1 and isinstance(r[0].value, ast.Call) and [src_of(a) for a in r[0].value.args] == params
-        inner = m.functions.get(src_of(r[0].value.func)) if ok else None
+        direct = len(r) == 1 and isinstance(r[0].value, ast.Call) and src_of(r[0].value.func) == f"{params[0]}._add_node"
+        if direct:
+            # the cdef helper is written out in the wrapper (or was looked through): one layer to check
+            inner = w
+            ok = True
+        else:
+            ok = len(r) == 1 and isinstance(r[0].value, ast.Call) and [src_of(a) for a in r[0].value.args] == params
+            inner = m.functions.get(src_of(r[0].value.func)) if ok else None
         ck.verdict(ok and inner is not None, "C12.c", None, "tree_add_node -> cdef helper(same arguments)", "wrapper forwards its arguments in order", "the Python wrapper reorders or drops arguments of the cdef helper", file="mlinsights/mltree/_tree_digitize.pyx", function="tree_add_node", line=w.lineno)
         if inner is not None:
             ip = [a.arg for a in inner.args.args]
